@@ -140,7 +140,7 @@ Definition width_tables_ok (none : list wres) (attr : list (list wres)) : bool :
   forallb (fun m => wres_eqb (width_of_tables none attr None m) (width_spec None m)) bytes256 &&
   forallb (fun n => forallb (fun m =>
       wres_eqb (width_of_tables none attr (Some n) m) (width_spec (Some n) m)) bytes256)
-    (map N.of_nat (seq 0 10)).
+    (map N.of_nat (seq 0 9)).
 
 Definition width_witness (none : list wres) (attr : list (list wres)) : option (option N * N) :=
   match find (fun m => negb (wres_eqb (width_of_tables none attr None m) (width_spec None m))) bytes256 with
@@ -149,6 +149,6 @@ Definition width_witness (none : list wres) (attr : list (list wres)) : option (
       let bad := flat_map (fun n => map (fun m => (n, m))
                    (filter (fun m => negb (wres_eqb (width_of_tables none attr (Some n) m)
                                                     (width_spec (Some n) m))) bytes256))
-                   (map N.of_nat (seq 0 10)) in
+                   (map N.of_nat (seq 0 9)) in
       match bad with (n, m) :: _ => Some (Some n, m) | [] => None end
   end.
